@@ -261,6 +261,8 @@ _amend("C02", "text", "(R02.1-R02.9, DESIGN.md §4 C02; R02.9 reports one known 
 _amend("C03", "text", "(R03.1-R03.10 incl. R03.5c-e, DESIGN.md §4 C03):", "(R03.1-R03.11 incl. R03.5c-e, DESIGN.md §4 C03):")
 _amend("C03", "text", "Decides ten local clauses", "Decides eleven local clauses")
 _amend("C11", "text", "(R11.1-R11.7, DESIGN.md §4 C11;", "(R11.1-R11.8, DESIGN.md §4 C11; R11.8 reports a known finding in the pinned dependency: `+` in a data URI payload is decoded as a space;")
+_amend("C19", "text", "(R19.1-R19.16,", "(R19.1-R19.17,")
+_amend("C20", "text", "(R20.1-R20.9", "(R20.1-R20.10")
 
 NOT_APPLICABLE = {
  "C18": "DataURI/Mediatype correctness is about decoded byte values and length comparisons between encodings; no structural clause separates a right "
